@@ -104,7 +104,14 @@ func handleConnect(c *Client, e Event) {
 // nicknames with another bot, user, etc.
 func nickCollisionHandler(c *Client, e Event) {
 	if c.Config.HandleNickCollide == nil {
-		c.Cmd.Nick(c.GetNick() + "_")
+		// Build on the nickname the server just rejected, so that repeated
+		// collisions try nick_, nick__, and so on.
+		nick := c.GetNick()
+		if len(e.Params) >= 2 && IsValidNick(e.Params[1]) {
+			nick = e.Params[1]
+		}
+
+		c.Cmd.Nick(nick + "_")
 		return
 	}
 
